@@ -58,6 +58,14 @@ PROPS = {
                 nontrivial="value > 1"),
     "C09": dict(streams=["path"], exhaustive="every segment count 1..257 rooted/unrooted; each of the 4 positions over its alphabet and over all ASCII bytes",
                 nontrivial="non-empty string"),
+    "C13": dict(streams=["sdt"], exhaustive="all op sequences of length <= 2 (3 in the thorough tier) over a 34-op alphabet on a 40-byte table; every declared length 0..80",
+                nontrivial="at least one operation"),
+    "C14": dict(streams=["ent", "aml", "sdt", "cks"], exhaustive="", nontrivial="any object"),
+    "C15": dict(streams=["amlalt"], exhaustive="body sizes 0..4200 (every size near 63/64 and 4095/4096; every 7th elsewhere in the quick tier, all in the thorough tier)",
+                nontrivial="non-empty body"),
+    "C18": dict(streams=["tblbig", "amlbig", "path", "pkglen", "fix", "ent"], profiles=["release", "dev"],
+                both_profiles=["tblbig", "amlbig", "path", "pkglen", "fix"], exhaustive="",
+                nontrivial="any case"),
     "C16": dict(streams=["eisa", "eisablk", "uuid"], exhaustive="each EISA/UUID position over its alphabet; all 26^3*16^4 ids in the thorough tier (block digests)",
                 nontrivial="non-empty string"),
     "C17": dict(streams=["cks"], exhaustive="all 256x256 (state, byte) pairs for add/sub/value",
@@ -333,6 +341,8 @@ def nontrivial(stream, case_line):
         return " ; " in case_line
     if stream == "ent":
         return not case_line.endswith("/-")
+    if stream in ("aml", "amlalt", "amlbig", "sdt"):
+        return len(case_line.split(" ")) > 3
     if stream == "int":
         return body.split(" ")[-1] not in ("0", "1")
     return len(body.strip()) > 0 and body.strip() != "-"
